@@ -111,6 +111,29 @@ func genLong(t *rapid.T) harness.Case {
 	return c
 }
 
+// genLongDoc: documents of many root blocks (half of them with NULs at drawn
+// places) read as much at a time as the parser asks for, in fixed chunks around
+// the 8 KiB read size, or under a G5 schedule.
+func genLongDoc(t *rapid.T) harness.Case {
+	c := harness.Case{In: gen.LongDoc(17000, 90000).Draw(t, "in")}
+	switch rapid.IntRange(0, 4).Draw(t, "lsched") {
+	case 0, 1: // as much as the parser asks for
+	case 2, 3:
+		sz := []int{8192, 8191, 4096, 8000, 1000, 12000, 100}[rapid.IntRange(0, 6).Draw(t, "chunk")]
+		var s []int
+		for n := 0; n < len(c.In); n += sz {
+			s = append(s, sz)
+		}
+		c.SetL("sched", s)
+	default:
+		c.SetL("sched", gen.Schedule(t, c.In))
+	}
+	if rapid.Bool().Draw(t, "eofdata") {
+		c.SetI("eofdata", 1)
+	}
+	return c
+}
+
 const rule = "inputs from G1 byte soup (50%), G2 line-structured (30%), G3 mutated spec examples (20%); non-trivial = at least 2 root blocks, or the input has a NUL, a CR or an interior blank line; distinct by FNV-64 of input and schedule"
 
 func plan() harness.Plan {
@@ -118,6 +141,7 @@ func plan() harness.Plan {
 		{Name: "memory", Quick: 60000, Thorough: 600000, Gen: genMemory, Prop: propMemory, Rule: rule},
 		{Name: "stream", Quick: 40000, Thorough: 400000, Gen: genStream, Prop: propStream, Rule: rule + "; read schedule from G5"},
 		{Name: "stream_long", Quick: 300, Thorough: 3000, Gen: genLong, Prop: propStream, Rule: "G1 long mode 6-40 KB (crosses the 8 KiB read window) x G5 schedule; non-trivial as above"},
+		{Name: "stream_documents", Quick: 80, Thorough: 1200, Gen: genLongDoc, Prop: propStream, Rule: "documents of 17-90 KB made of hundreds of root blocks (gen.LongDoc; half of them with single NULs, NUL runs and runs of thousands of NULs at drawn offsets), read as much at a time as the parser asks for, in fixed chunks around 8 KiB, or under a G5 schedule"},
 		{Name: "memory_long", Quick: 300, Thorough: 3000, Gen: func(t *rapid.T) harness.Case { return harness.Case{In: gen.Long(6000, 40000).Draw(t, "in")} }, Prop: propMemory, Rule: "G1 long mode, in-memory"},
 	}}
 }
